@@ -365,12 +365,59 @@ def random_edit(r: random.Random, root, *, allow_comments: bool = True, focus=No
                 p, n = r.choice(exprs)
                 opn, fn = r.choice([('+=', operator.iadd), ('-=', operator.isub), ('*=', operator.imul), ('/=', operator.itruediv)])
                 v = r.choice([2, D('2.5'), -3, D('-0.5'), 10])
-                e = Edit(f'{p} {opn} {v!r}')
+                desc = repr(v)
+                if r.random() < 0.45:
+                    # a free-standing expression as the right operand: sums / products / signs / parentheses, which
+                    # the operator has to wrap or splice term by term
+                    NE = models.NumberExpr
+                    mk = r.choice([
+                        ('NE(1) + 0.50', lambda: NE.from_value(D(1)) + D('0.50')),
+                        ('NE(7) - 2 - 1', lambda: NE.from_value(D(7)) - D(2) - D(1)),
+                        ('NE(2) * 3', lambda: NE.from_value(D(2)) * D(3)),
+                        ('NE(8) / 4 * 2', lambda: NE.from_value(D(8)) / D(4) * D(2)),
+                        ('-NE(3)', lambda: -NE.from_value(D(3))),
+                        ('-(NE(3) + 1)', lambda: -(NE.from_value(D(3)) + D(1))),
+                        ('NE(-2)', lambda: NE.from_value(D(-2))),
+                        ('(NE(1) + 2) * 3', lambda: (NE.from_value(D(1)) + D(2)) * D(3)),
+                        ('NE(1) * 2 + NE(3) * 4', lambda: NE.from_value(D(1)) * D(2) + NE.from_value(D(3)) * D(4)),
+                    ])
+                    desc = mk[0]
+                    try:
+                        v = mk[1]()
+                    except Exception:
+                        v = D(2)
+                        desc = repr(v)
+                e = Edit(f'{p} {opn} {desc}')
                 try:
                     fn(n, v)
                 except Exception as x:
                     e.exc = x
                 return e
+        if 0.13 <= kind < 0.17 and focus is None:
+            # --- spacing accessors, syntax preserving: write the current value back (must change nothing), or
+            #     replace blanks inside a line by other blanks
+            p_, m_ = r.choice(nodes)
+            if hasattr(type(m_), 'spacing_before') and getattr(m_, 'token_store', None) is not None:
+                side = r.choice(['spacing_before', 'spacing_after', 'raw_spacing_before', 'raw_spacing_after'])
+                try:
+                    cur = getattr(m_, side)
+                except Exception:
+                    cur = None
+                if cur is not None:
+                    if side.startswith('raw_'):
+                        e = Edit(f'{p_}.{side} = {p_}.{side}')
+                        new_v = tuple(cur)
+                    elif cur and set(cur) <= {' ', '\t'} and r.random() < 0.6:
+                        new_v = r.choice([' ', '  ', '\t', '     '])
+                        e = Edit(f'{p_}.{side} = {new_v!r} (was {cur!r})')
+                    else:
+                        new_v = cur
+                        e = Edit(f'{p_}.{side} = {p_}.{side} ({cur!r})')
+                    try:
+                        setattr(m_, side, new_v)
+                    except Exception as x:
+                        e.exc = x
+                    return e
         if 0.06 <= kind < 0.09 and focus is None:
             # --- a node that is still attached elsewhere (at the edge of a free-standing parsed model's store) offered
             #     as a value: must be refused and change nothing; if it is accepted the trees are checked afterwards
@@ -455,7 +502,7 @@ def random_edit(r: random.Random, root, *, allow_comments: bool = True, focus=No
                 except Exception as x:
                     e.exc = x
                 return e
-        if kind < 0.15 and toks:
+        if kind < 0.24 and toks:
             # --- token value
             p, t = r.choice(toks)
             s = sample_for(type(t), r)
